@@ -6,8 +6,7 @@
    without exc_info, in any number and at any time) and body writes, ending normally, with a file wrapper
    or with an exception; the request, the worker class and the worker state are arbitrary too. *)
 From Coq Require Import List NArith ZArith Bool.
-From GV Require Import Base.Enc Base.Dec Model.RespStr Gen.GenResponse Model.Response Spec.RespSpec
-  Proof.RespStrProofs Proof.RespTables Proof.ResponseHead.
+From GV Require Import Base.Enc Base.Dec Model.RespStr Gen.GenResponse Model.Response Spec.RespSpec Proof.RespStrProofs Proof.RespTables Proof.ResponseHead.
 Import ListNotations.
 Local Open Scope N_scope.
 
